@@ -55,14 +55,14 @@ def run(ctx, pid):
                 "precompile's input families, gas limit in {0, cost-1, cost, cost+1, ample}); distinct = distinct calls")
     if ctx.quick:
         consts = dict(DirectForks=strs(SIX), EvmForks=strs(SIX), ModexpFullForks=strs(["BYZANTIUM", "BERLIN"]),
-                      FullCuts="FALSE", WideGas="FALSE", MsmKs=vf.tla_set([1, 2, 3, 64, 127, 128, 129]))
+                      FullCuts="FALSE", WideGas="FALSE", RichVals="FALSE", MsmKs=vf.tla_set([1, 2, 3, 64, 127, 128, 129]))
         timeout = 900
     else:
         consts = dict(DirectForks=strs(SIX + ["LATEST"]),
                       EvmForks=strs(SIX + ["FRONTIER", "TANGERINE", "SPURIOUS_DRAGON", "PETERSBURG", "MUIR_GLACIER",
                                            "LONDON", "SHANGHAI", "LATEST"]),
-                      ModexpFullForks=strs(["BYZANTIUM", "BERLIN", "PRAGUE"]),
-                      FullCuts="TRUE", WideGas="TRUE", MsmKs="1..130")
+                      ModexpFullForks=strs(["BYZANTIUM", "PETERSBURG", "BERLIN", "PRAGUE"]),
+                      FullCuts="TRUE", WideGas="TRUE", RichVals="TRUE", MsmKs="1..130")
         timeout = 3000
     binary = vf.cargo_build("precompiles")
     run_ = vf.tlc(ctx, "Precompiles", vf.cfg(consts, invariants=INV), name="precompiles", workers=6, xss="1g",
